@@ -7,7 +7,15 @@ package pc17
 //
 // Types are generated from two unambiguous lexicons (secret-looking / benign); borderline names are never generated, so
 // the oracle does not depend on where the package draws the line. Nesting is by value and by pointer (nil pointers
-// included: Request() / Response() return *empty* objects), depth <= 3.
+// included: Request() / Response() return *empty* objects).
+//
+// A case is ONE *registry.Register and a SEQUENCE of 2-5 Register calls. Nested struct types are drawn from a small
+// per-case pool of type descriptions, so the same reflect.Type (reflect.StructOf returns identical types for identical
+// field lists) is frequently shared between calls: as a nested field (by value / by pointer), as the whole request or
+// the whole response, and by re-registering a plugin that was refused before. The oracle is per call and independent
+// of history: the statement speaks about "a plugin whose request or response type has ...", not about what the
+// registry has seen earlier. Plugin names are distinct except for the retry of a *refused* plugin (whose name is not
+// in the registry), so the documented duplicate-name error cannot occur.
 
 import (
 	"context"
@@ -50,19 +58,62 @@ type RegField struct {
 	Tag    int  `json:"tag,omitempty"`
 	Kind   int  `json:"kind,omitempty"`
 	// NilPtr: the pointer is nil in the empty object returned by Request() / Response().
-	NilPtr bool       `json:"nilptr,omitempty"`
-	Sub    []RegField `json:"sub,omitempty"`
+	NilPtr bool `json:"nilptr,omitempty"`
+	// Pool > 0 (struct / pointer kinds only): the nested struct type is entry Pool-1 of the case's pool instead of Sub.
+	Pool int        `json:"pool,omitempty"`
+	Sub  []RegField `json:"sub,omitempty"`
 }
 
-// RegCase is the registry half of a case.
-type RegCase struct {
-	Req     []RegField `json:"req"`
-	Resp    []RegField `json:"resp"`
+// RegCall is one Register call: a plugin with its own name and its request / response types.
+type RegCall struct {
+	Req     []RegField `json:"req,omitempty"`
+	Resp    []RegField `json:"resp,omitempty"`
 	ReqPtr  bool       `json:"reqptr,omitempty"` // Request() returns a pointer to the struct
+	RespPtr bool       `json:"respptr,omitempty"`
+	// ReqPool / RespPool > 0: the whole request / response type is pool entry ReqPool-1 / RespPool-1.
+	ReqPool  int `json:"reqpool,omitempty"`
+	RespPool int `json:"resppool,omitempty"`
+	// RetryOf > 0: register the plugin of call RetryOf-1 again (same types; same name if that call had to be refused,
+	// a new name otherwise, so that the duplicate-name error never occurs). The other fields are ignored.
+	RetryOf int `json:"retryof,omitempty"`
+}
+
+// RegCase is the registry half of a case: one Register, a pool of shared nested types, a sequence of calls.
+type RegCase struct {
+	Pool  [][]RegField `json:"pool,omitempty"`
+	Calls []RegCall    `json:"calls,omitempty"`
+
+	// legacy single-call form (regression files written before the sequence form): treated as one call
+	Req     []RegField `json:"req,omitempty"`
+	Resp    []RegField `json:"resp,omitempty"`
+	ReqPtr  bool       `json:"reqptr,omitempty"`
 	RespPtr bool       `json:"respptr,omitempty"`
 }
 
-func genRegFields(t *rapid.T, depth int, compliantOnly bool) []RegField {
+const (
+	regMaxCalls = 5
+	regMaxPool  = 3
+)
+
+// regGen carries what the field generator may refer to.
+type regGen struct {
+	pool      [][]RegField
+	compliant []bool // pool entry has no untagged secret-looking field anywhere
+}
+
+func hasUntaggedSecret(fs []RegField) bool {
+	for i := range fs {
+		if fs[i].Secret && fs[i].Tag == tagNone {
+			return true
+		}
+		if (fs[i].Kind == rkStruct || fs[i].Kind == rkPtr) && hasUntaggedSecret(fs[i].Sub) {
+			return true
+		}
+	}
+	return false
+}
+
+func genRegFields(t *rapid.T, g *regGen, depth int, compliantOnly bool) []RegField {
 	n := rapid.IntRange(1, 3).Draw(t, "nfields")
 	out := make([]RegField, 0, n)
 	for i := 0; i < n; i++ {
@@ -91,7 +142,20 @@ func genRegFields(t *rapid.T, depth int, compliantOnly bool) []RegField {
 			}
 			// Whether a secret-looking name *beneath* a field that is itself tagged secure/ignore must be refused is
 			// not settled by the statement; that class is not generated (see regVerdict).
-			f.Sub = genRegFields(t, depth+1, compliantOnly || f.Tag != tagNone)
+			subCompliant := compliantOnly || f.Tag != tagNone
+			var usable []int
+			if g != nil {
+				for pi := range g.pool {
+					if !subCompliant || g.compliant[pi] {
+						usable = append(usable, pi+1)
+					}
+				}
+			}
+			if len(usable) > 0 && rapid.IntRange(0, 2).Draw(t, "usepool") > 0 {
+				f.Pool = rapid.SampledFrom(usable).Draw(t, "pool") // shared nested type
+			} else {
+				f.Sub = genRegFields(t, g, depth+1, subCompliant)
+			}
 		}
 		out = append(out, f)
 	}
@@ -99,12 +163,74 @@ func genRegFields(t *rapid.T, depth int, compliantOnly bool) []RegField {
 }
 
 func genRegCase(t *rapid.T) *RegCase {
-	return &RegCase{
-		Req:     genRegFields(t, 1, false),
-		Resp:    genRegFields(t, 1, false),
-		ReqPtr:  rapid.Bool().Draw(t, "reqptr"),
-		RespPtr: rapid.Bool().Draw(t, "respptr"),
+	rc := &RegCase{}
+	g := &regGen{}
+	np := rapid.SampledFrom([]int{0, 1, 1, 2, 2, 2, 3, 3}).Draw(t, "pool")
+	for i := 0; i < np; i++ {
+		// pool entries do not refer to the pool themselves (no recursive types)
+		fs := genRegFields(t, nil, 2, false)
+		if rapid.IntRange(0, 2).Draw(t, "pooloffender") == 2 {
+			// make "a shared type that gets a registration refused" frequent
+			fs = append(fs, RegField{Secret: true, Idx: rapid.IntRange(0, len(secretNames)-1).Draw(t, "idx"), Tag: tagNone, Kind: rkString})
+		}
+		g.pool = append(g.pool, fs)
+		g.compliant = append(g.compliant, !hasUntaggedSecret(fs))
 	}
+	rc.Pool = g.pool
+	nc := rapid.IntRange(2, regMaxCalls).Draw(t, "calls")
+	for i := 0; i < nc; i++ {
+		c := RegCall{}
+		mode := rapid.SampledFrom([]int{0, 0, 0, 1, 1, 2, 2, 3, 3}).Draw(t, "callmode")
+		if (mode == 3 && i == 0) || ((mode == 1 || mode == 2) && np == 0) {
+			mode = 0
+		}
+		switch mode {
+		case 0: // own types, nested fields often from the pool
+			c.Req = genRegFields(t, g, 1, false)
+			c.Resp = genRegFields(t, g, 1, false)
+		case 1: // the whole request is a shared type
+			c.ReqPool = rapid.IntRange(1, np).Draw(t, "reqpool")
+			c.Resp = genRegFields(t, g, 1, true)
+		case 2: // the whole response is a shared type
+			c.Req = genRegFields(t, g, 1, true)
+			c.RespPool = rapid.IntRange(1, np).Draw(t, "resppool")
+		case 3: // the plugin of an earlier call again
+			c.RetryOf = rapid.IntRange(1, i).Draw(t, "retryof")
+		}
+		if mode != 3 {
+			c.ReqPtr = rapid.Bool().Draw(t, "reqptr")
+			c.RespPtr = rapid.Bool().Draw(t, "respptr")
+		}
+		rc.Calls = append(rc.Calls, c)
+	}
+	return rc
+}
+
+// resolveRegFields returns a copy of fs in which every pool reference is replaced by the pool entry's fields.
+func resolveRegFields(fs []RegField, pool [][]RegField) ([]RegField, error) {
+	out := make([]RegField, len(fs))
+	for i := range fs {
+		out[i] = fs[i]
+		f := &out[i]
+		if f.Kind != rkStruct && f.Kind != rkPtr {
+			f.Pool, f.Sub = 0, nil
+			continue
+		}
+		src := f.Sub
+		if f.Pool != 0 {
+			if f.Pool < 1 || f.Pool > len(pool) {
+				return nil, fmt.Errorf("pool reference %d out of range", f.Pool)
+			}
+			src = pool[f.Pool-1]
+			f.Pool = 0
+		}
+		sub, err := resolveRegFields(src, nil) // pool entries hold no pool references
+		if err != nil {
+			return nil, err
+		}
+		f.Sub = sub
+	}
+	return out, nil
 }
 
 func (f *RegField) name() string {
@@ -124,8 +250,11 @@ func validRegFields(fs []RegField, depth int) error {
 			return fmt.Errorf("bad tag/kind")
 		}
 		if f.Kind == rkStruct || f.Kind == rkPtr {
-			if depth >= regMaxDepth {
-				return fmt.Errorf("nesting deeper than %d", regMaxDepth)
+			if depth >= regMaxDepth+2 { // a pool type (itself up to 2 levels) may hang below a depth-3 field
+				return fmt.Errorf("nesting deeper than %d", regMaxDepth+2)
+			}
+			if f.Pool != 0 {
+				return fmt.Errorf("unresolved pool reference")
 			}
 			if err := validRegFields(f.Sub, depth+1); err != nil {
 				return err
@@ -266,10 +395,11 @@ type regStats struct {
 }
 
 type fakePlugin struct {
+	name      string
 	req, resp any
 }
 
-func (p *fakePlugin) Name() string { return "verif/pc17/plugin" }
+func (p *fakePlugin) Name() string { return p.name }
 func (p *fakePlugin) Execute(ctx context.Context, req any) (any, *plugins.Error) {
 	return p.resp, nil
 }
@@ -282,73 +412,264 @@ func (p *fakePlugin) Init() error                     { return nil }
 
 var _ plugins.Plugin = (*fakePlugin)(nil)
 
+// structTypes collects the struct types of a (resolved) type tree: all of them, and those that lie on the way to an
+// offender (an untagged secret-looking field that is not beneath a tagged field), the directly containing one included.
+func structTypes(fs []RegField, underTagged bool, all, offending map[reflect.Type]bool) (hasOffender bool) {
+	t := regStructType(fs)
+	all[t] = true
+	for i := range fs {
+		f := &fs[i]
+		if f.Secret && f.Tag == tagNone && !underTagged {
+			hasOffender = true
+		}
+		if f.Kind == rkStruct || f.Kind == rkPtr {
+			if structTypes(f.Sub, underTagged || f.Tag != tagNone, all, offending) {
+				hasOffender = true
+			}
+		}
+	}
+	if hasOffender {
+		offending[t] = true
+	}
+	return hasOffender
+}
+
+// nestedByPointer reports whether one of the given struct types occurs in the tree behind a pointer field.
+func nestedByPointer(fs []RegField, types map[reflect.Type]bool) bool {
+	for i := range fs {
+		f := &fs[i]
+		if f.Kind == rkPtr && types[regStructType(f.Sub)] {
+			return true
+		}
+		if (f.Kind == rkStruct || f.Kind == rkPtr) && nestedByPointer(f.Sub, types) {
+			return true
+		}
+	}
+	return false
+}
+
+// resolvedCall is a call with pool references and retries resolved.
+type resolvedCall struct {
+	name      string
+	req, resp []RegField
+	reqPtr    bool
+	respPtr   bool
+	retryOf   int // index of the call that is repeated, -1 if none
+}
+
+func resolveRegCase(rc *RegCase) ([]resolvedCall, error) {
+	calls := rc.Calls
+	if len(calls) == 0 && len(rc.Req) > 0 {
+		calls = []RegCall{{Req: rc.Req, Resp: rc.Resp, ReqPtr: rc.ReqPtr, RespPtr: rc.RespPtr}} // legacy form
+	}
+	if len(calls) == 0 || len(calls) > regMaxCalls || len(rc.Pool) > regMaxPool {
+		return nil, fmt.Errorf("%d calls, %d pool entries", len(calls), len(rc.Pool))
+	}
+	for _, pe := range rc.Pool {
+		r, err := resolveRegFields(pe, nil)
+		if err != nil {
+			return nil, err
+		}
+		if err := validRegFields(r, 2); err != nil {
+			return nil, err
+		}
+	}
+	side := func(fs []RegField, pool int) ([]RegField, error) {
+		if pool != 0 {
+			if pool < 1 || pool > len(rc.Pool) {
+				return nil, fmt.Errorf("pool reference %d out of range", pool)
+			}
+			fs = rc.Pool[pool-1]
+		}
+		r, err := resolveRegFields(fs, rc.Pool)
+		if err != nil {
+			return nil, err
+		}
+		return r, validRegFields(r, 1)
+	}
+	out := make([]resolvedCall, 0, len(calls))
+	for i := range calls {
+		c := &calls[i]
+		if c.RetryOf != 0 {
+			if c.RetryOf < 1 || c.RetryOf > i {
+				return nil, fmt.Errorf("call %d retries call %d", i, c.RetryOf-1)
+			}
+			prev := out[c.RetryOf-1]
+			prev.retryOf = c.RetryOf - 1
+			prev.name = "" // decided by the caller, once it is known whether the earlier call had to be refused
+			out = append(out, prev)
+			continue
+		}
+		req, err := side(c.Req, c.ReqPool)
+		if err != nil {
+			return nil, err
+		}
+		resp, err := side(c.Resp, c.RespPool)
+		if err != nil {
+			return nil, err
+		}
+		out = append(out, resolvedCall{name: fmt.Sprintf("verif/pc17/plugin%d", i), req: req, resp: resp,
+			reqPtr: c.ReqPtr, respPtr: c.RespPtr, retryOf: -1})
+	}
+	return out, nil
+}
+
 func checkRegistry(rc *RegCase, res *vprop.Result) {
 	res.Label("mode:registry")
-	if err := validRegFields(rc.Req, 1); err != nil {
+	calls, err := resolveRegCase(rc)
+	if err != nil {
 		res.Skip = true
 		res.Label("invalid-case")
 		return
 	}
-	if err := validRegFields(rc.Resp, 1); err != nil {
-		res.Skip = true
-		res.Label("invalid-case")
-		return
-	}
-	st := &regStats{}
-	offReq, ambReq := regVerdict(rc.Req, false, "req", st)
-	offResp, ambResp := regVerdict(rc.Resp, false, "resp", st)
-	offender := offReq
-	if offender == "" {
-		offender = offResp
-	}
-	if offender == "" && (ambReq || ambResp) {
-		// only replayed / hand-written cases get here; the generator does not produce the class
-		res.Skip = true
-		res.Label("reg:ambiguous-under-tagged-parent")
-		return
-	}
-	// non-trivial: nesting present and an offender below the top level, or behind a nil pointer
-	res.NonTrivial = st.nested > 0 && (st.offenderDepth >= 3 || st.nilPtrs > 0)
-	if offender != "" {
-		res.Label("reg:expect-refuse")
-		if st.offenderBehindNil {
-			res.Label("reg:offender-behind-nil-pointer")
-		}
-		if st.offenderDepth >= 3 {
-			res.Label("reg:offender-nested")
-		}
-	} else {
-		res.Label("reg:expect-accept")
-	}
+	res.Label(fmt.Sprintf("reg:calls:%d", len(calls)))
+	f := &failer{res: res, seen: map[string]bool{}}
 
-	plug := &fakePlugin{req: regObject(rc.Req, rc.ReqPtr), resp: regObject(rc.Resp, rc.RespPtr)}
-	reg := registry.New() // fresh registry per case
-	var err error
-	panicked := func() (p any) {
-		defer func() { p = recover() }()
-		err = reg.Register(plug)
-		return nil
-	}()
-	if panicked != nil {
-		// The statement speaks of refusing; a panic is neither a registration nor a leak. Counted, not alarmed.
-		res.Label("panic:register")
-		return
+	reg := registry.New() // one registry per case, fresh for every case
+	type past struct {
+		refuse        bool
+		all           map[reflect.Type]bool // struct types of the call's request and response trees
+		offending     map[reflect.Type]bool // those on the way to an offender
+		reqOffending  map[reflect.Type]bool
+		respOffending map[reflect.Type]bool
 	}
-	switch {
-	case offender != "" && err == nil:
-		cls := "top-level"
-		switch {
-		case st.offenderBehindNil:
-			cls = "behind-nil-pointer"
-		case st.offenderDepth >= 3:
-			cls = "nested"
+	var history []past
+
+	for i := range calls {
+		c := &calls[i]
+		st := &regStats{}
+		offReq, ambReq := regVerdict(c.req, false, "req", st)
+		offResp, ambResp := regVerdict(c.resp, false, "resp", st)
+		offender := offReq
+		if offender == "" {
+			offender = offResp
 		}
-		// "The registry refuses to register a plugin whose request or response type has a secret-looking field name
-		//  without an explicit secure or ignore tag."
-		res.Fail("C17/registry-accepted-untagged-secret:"+cls, "Register accepted a plugin although field %s is secret-looking and has neither coerce:\"secure\" nor coerce:\"ignore\" (request %T, response %T)", offender, plug.req, plug.resp)
-	case offender == "" && err != nil:
-		// converse ("refuses ... whose type has ..." read as exactly those): every secret-looking field is tagged and
-		// nothing else about the plugin is wrong (unique name, valid retry policy), so the refusal has no ground.
-		res.Fail("C17/registry-refused-compliant-type", "Register refused a plugin whose request/response types have no untagged secret-looking field: %v (request %T, response %T)", err, plug.req, plug.resp)
+		judged := true
+		if offender == "" && (ambReq || ambResp) {
+			// only replayed / hand-written cases get here; the generator does not produce the class. The call is
+			// still made (it is part of the history of the later calls) but not judged.
+			judged = false
+			res.Label("reg:ambiguous-under-tagged-parent")
+		}
+		refuse := offender != ""
+		if c.retryOf >= 0 {
+			if history[c.retryOf].refuse {
+				c.name = calls[c.retryOf].name // a refused plugin is not in the registry: its name is free
+				res.Label("reg:retry-of-refused-plugin")
+			} else {
+				c.name = fmt.Sprintf("verif/pc17/plugin%d", i)
+				res.Label("reg:same-types-new-name")
+			}
+		}
+
+		all, offending := map[reflect.Type]bool{}, map[reflect.Type]bool{}
+		reqOff, respOff := map[reflect.Type]bool{}, map[reflect.Type]bool{}
+		structTypes(c.req, false, all, reqOff)
+		structTypes(c.resp, false, all, respOff)
+		for t := range reqOff {
+			offending[t] = true
+		}
+		for t := range respOff {
+			offending[t] = true
+		}
+
+		// classification against the history
+		sharedAny, sharedRefused := false, false
+		refusedTypes := map[reflect.Type]bool{} // this call's offending types that an earlier refused call contained
+		for _, h := range history {
+			for t := range all {
+				if h.all[t] {
+					sharedAny = true
+				}
+			}
+			if !h.refuse {
+				continue
+			}
+			for t := range offending {
+				if h.all[t] {
+					sharedRefused = true
+					refusedTypes[t] = true
+				}
+			}
+			// "a refused type reused as a response": offending in an earlier request, now offending in the response
+			for t := range respOff {
+				if h.reqOffending[t] && !h.respOffending[t] {
+					res.Label("reg:refused-request-type-reused-in-response")
+				}
+			}
+		}
+		if sharedAny {
+			res.Label("reg:type-shared-with-earlier-call")
+			res.NonTrivial = true
+		}
+		if sharedRefused && refuse {
+			res.Label("reg:type-shared-with-earlier-refused-registration")
+			if nestedByPointer(c.req, refusedTypes) || nestedByPointer(c.resp, refusedTypes) {
+				res.Label("reg:refused-type-nested-by-pointer")
+			}
+		}
+		// non-trivial (single-call rule): nesting present and an offender below the top level, or a nil pointer
+		if st.nested > 0 && (st.offenderDepth >= 3 || st.nilPtrs > 0) {
+			res.NonTrivial = true
+		}
+		if judged {
+			if refuse {
+				res.Label("reg:expect-refuse")
+				if st.offenderBehindNil {
+					res.Label("reg:offender-behind-nil-pointer")
+				}
+				if st.offenderDepth >= 3 {
+					res.Label("reg:offender-nested")
+				}
+			} else {
+				res.Label("reg:expect-accept")
+			}
+		}
+		history = append(history, past{refuse: refuse || !judged, all: all, offending: offending, reqOffending: reqOff, respOffending: respOff})
+
+		plug := &fakePlugin{name: c.name, req: regObject(c.req, c.reqPtr), resp: regObject(c.resp, c.respPtr)}
+		var err error
+		panicked := func() (p any) {
+			defer func() { p = recover() }()
+			err = reg.Register(plug)
+			return nil
+		}()
+		if panicked != nil {
+			// The statement speaks of refusing; a panic is neither a registration nor a leak. Counted, not alarmed.
+			res.Label("panic:register")
+			return
+		}
+		if !judged {
+			continue
+		}
+		switch {
+		case refuse && err == nil:
+			cls := "top-level"
+			switch {
+			case sharedRefused:
+				// the same offending struct type was part of an earlier registration that had to be refused
+				cls = "type-shared-with-earlier-refused-registration"
+			case st.offenderBehindNil:
+				cls = "behind-nil-pointer"
+			case st.offenderDepth >= 3:
+				cls = "nested"
+			}
+			// "The registry refuses to register a plugin whose request or response type has a secret-looking field
+			//  name without an explicit secure or ignore tag." — for every such plugin, whatever the registry was asked
+			//  to register before.
+			f.fail("C17/registry-accepted-untagged-secret:"+cls, "Register call #%d (plugin %q) accepted a plugin although field %s is secret-looking and has neither coerce:\"secure\" nor coerce:\"ignore\" (request %T, response %T)", i, c.name, offender, plug.req, plug.resp)
+			return
+		case !refuse && err != nil:
+			// converse ("refuses ... whose type has ..." read as exactly those): every secret-looking field is tagged
+			// and nothing else about the plugin is wrong (name not registered before, valid retry policy), so the
+			// refusal has no ground.
+			f.fail("C17/registry-refused-compliant-type", "Register call #%d (plugin %q) refused a plugin whose request/response types have no untagged secret-looking field: %v (request %T, response %T)", i, c.name, err, plug.req, plug.resp)
+			return
+		case refuse && reg.Plugin(c.name) != nil:
+			// "refuses to register": an error return with the plugin in the registry all the same is no refusal
+			// (the name of a refused plugin is never registered by another call of the case)
+			f.fail("C17/registry-refused-but-registered", "Register call #%d returned %v but plugin %q is in the registry", i, err, c.name)
+			return
+		}
 	}
 }
